@@ -31,7 +31,7 @@ def main():
                 ov = os.path.join(d, 'ov.json'); json.dump({'/repo/' + m['file']: mp}, open(ov, 'w'))
                 os.makedirs(d + '/evidence'); shutil.copy(V + '/known-findings.json', d) if os.path.exists(V + '/known-findings.json') else None
                 env = dict(os.environ, SIOT_OVERLAY=ov, SIOT_VERIF=d)
-                r = subprocess.run([V + '/bin/siotcheck', '-prop', m['prop']], env=env, capture_output=True, text=True)
+                r = subprocess.run([os.environ.get('SIOTCHECK', V + '/bin/siotcheck'), '-prop', m['prop']], env=env, capture_output=True, text=True)
                 out = r.stdout + r.stderr
                 exp = m['expect'] if isinstance(m['expect'], list) else [m['expect']]
                 if exp == ['none']:
